@@ -147,14 +147,61 @@ fn s_prune(t: &mut Tape, ctx: &mut Ctx) -> Result<(), Failure> {
     Ok(())
 }
 
+/// Shipped examples with their argument / witness files under all 40 environments.
+fn e_examples(i: u64, ctx: &mut Ctx) -> Result<(), Failure> {
+    let exs = crate::seeds::examples();
+    let all_envs = envs();
+    let ex = &exs[(i as usize) / all_envs.len() % exs.len()];
+    let (ename, env) = &all_envs[(i as usize) % all_envs.len()];
+    let args = match &ex.args_json {
+        Some(a) => match catch(|| serde_json::from_str::<simfony::Arguments>(a)) {
+            Ok(Ok(a)) => a,
+            _ => return Err(Failure::internal(format!("{}.args unreadable", ex.name))),
+        },
+        None => simfony::Arguments::default(),
+    };
+    let c = compile(&ex.program, args, false, "c18")?;
+    let mut maps: Vec<(String, simfony::WitnessValues)> = vec![("empty".into(), simfony::WitnessValues::default())];
+    for (f, w) in &ex.wit_json {
+        if let Ok(Ok(w)) = catch(|| serde_json::from_str::<simfony::WitnessValues>(w)) {
+            maps.push((f.clone(), w));
+        }
+    }
+    for (label, w) in maps {
+        ctx.evals(1);
+        let wj = json!(label);
+        let detail = json!({"example": ex.name, "witness": label, "env": ename});
+        let unpruned = pipe::satisfy_and_run(&c.program, &c.info, w.shallow_clone(), None, env);
+        let verdict = judge(&unpruned, "c18", &ex.program, &wj, false)?;
+        let sat = catch(|| c.program.satisfy_with_env(w, Some(env)));
+        match (sat, verdict) {
+            (Err(p), _) => return Err(Failure::new(format!("panic:{}", crate::run::panic_site(&p)), format!("satisfy_with_env panicked on example {}: {p}", ex.name)).with(detail)),
+            (Ok(Err(_)), Verdict::Fails) => ctx.label("example:pruning-error-as-expected"),
+            (Ok(Err(e)), Verdict::Success) => return Err(Failure::new("c18:pruning-fails-though-program-succeeds", format!("example {} ({label}, {ename}): unpruned succeeds, satisfy_with_env fails: {e}", ex.name)).with(detail)),
+            (Ok(Ok(_)), Verdict::Fails) => return Err(Failure::new("c18:pruning-succeeds-though-program-fails", format!("example {} ({label}, {ename}): unpruned fails, satisfy_with_env returns a program", ex.name)).with(detail)),
+            (Ok(Ok(s)), Verdict::Success) => {
+                let out = pipe::run_satisfied(c.info.cmr, c.info.unit_to_unit, &s, env);
+                let v = judge(&out, "c18:pruned", &ex.program, &wj, false)?;
+                if v != Verdict::Success {
+                    return Err(Failure::new("c18:pruned-program-fails-under-its-environment", format!("example {} ({label}, {ename}): {}", ex.name, out.brief())).with(detail));
+                }
+                ctx.label("example:pruning-ok");
+                ctx.nontrivial(digest(&[ex.name.as_bytes(), label.as_bytes(), ename.as_bytes()]));
+            }
+        }
+    }
+    ctx.sample(i, || json!({"example": ex.name, "env": ename}));
+    Ok(())
+}
+
 pub fn streams() -> Vec<Stream> {
-    vec![Stream { name: "prune", kind: Kind::Tape { cases: |t: Tier| t.pick(12_000, 300_000), max_len: 420, f: s_prune }, isolate: false }]
+    vec![Stream { name: "examples", kind: Kind::Enum { count: |_| (crate::seeds::examples().len() * 40) as u64, complete: |_| true, f: e_examples }, isolate: false }, Stream { name: "prune", kind: Kind::Tape { cases: |t: Tier| t.pick(12_000, 300_000), max_len: 420, f: s_prune }, isolate: false }]
 }
 
 pub fn def() -> PropertyDef {
     PropertyDef {
         id: "C18",
-        rule: "generated programs with 1-3 extra statements that assert or branch on environment jets (check_lock_height / _time / _distance, tx_is_final, tx_lock_height, lock_time, version, current_sequence, witness-controlled branches) x up to 3 witness assignments x 4 of the 40 environments dummy_with(lock_time in {0, 1000, 499999999, 500000000, 1734967835}, sequence in {MAX, ENABLE_LOCKTIME_NO_RBF, from_height(1000), ZERO}, fee in {false,true}). Oracle (differential, no reference for the environment jets needed): verdict of satisfy(w) executed under env; satisfy_with_env(w, Some(env)) is Err iff that verdict is failure; when Ok the pruned program has the commit CMR, its encoding decodes to the same CMR, its witness nodes are well-typed and it succeeds under env; nothing panics. evaluations = (program, witness, environment) triples. Non-trivial = the unpruned program has a case node and (the triples of the case give both verdicts or the pruned program is strictly smaller); distinct by digest.",
+        rule: "stream examples (complete): the 20 shipped examples with their argument / witness files and the empty map under all 40 environments. stream prune: generated programs with 1-3 extra statements that assert or branch on environment jets (check_lock_height / _time / _distance, tx_is_final, tx_lock_height, lock_time, version, current_sequence, witness-controlled branches) x up to 3 witness assignments x 4 of the 40 environments dummy_with(lock_time in {0, 1000, 499999999, 500000000, 1734967835}, sequence in {MAX, ENABLE_LOCKTIME_NO_RBF, from_height(1000), ZERO}, fee in {false,true}). Oracle (differential, no reference for the environment jets needed): verdict of satisfy(w) executed under env; satisfy_with_env(w, Some(env)) is Err iff that verdict is failure; when Ok the pruned program has the commit CMR, its encoding decodes to the same CMR, its witness nodes are well-typed and it succeeds under env; nothing panics. evaluations = (program, witness, environment) triples. Non-trivial = the unpruned program has a case node and (the triples of the case give both verdicts or the pruned program is strictly smaller); distinct by digest.",
         assumptions: &["the Bit Machine's behaviour on the unpruned program is the reference for 'fails under env'"],
         streams,
         health: &[("prune", "pruning:ok", 300), ("prune", "pruning:error-as-expected", 100)],
